@@ -51,11 +51,62 @@ def front_rule(model: Model, rep: Report):
     front_delegation(model, rep, "C04.D4", "DeclarativeCircuit", "duration", "duration", False, "the duration read from a circuit is not always the current span of its structure")
 
 
-def resolve_extremes(path: Path, value: Term) -> Tuple[Term, List[Summary], List[str]]:
+def _callee_name(c) -> str:
+    return c if isinstance(c, str) else show(c).split(".")[-1]
+
+
+def reduce_extreme(ev: Evaluator, t: Term):
+    """``functools.reduce(step, D, seed)`` whose step keeps the larger (smaller) of the accumulator and a function of the element: the accumulator loop
+    it abbreviates.  -> (direction, key, domain, seed, strict) or None"""
+    if not (t[0] == "call" and _callee_name(t[1]) == "reduce" and len(t[2]) == 3 and not t[3]):
+        return None
+    step, dom, seed = t[2]
+    acc = ("sym", "@acc")
+    try:
+        r = ev._apply_binary(step, acc, ELEM, Frame(None, None, {}, None, 0))
+    except Unsupported:
+        return None
+    if r is None:
+        return None
+    r = _unvar(r)
+    if r[0] in ("max", "min") and len(r[1]) == 2 and acc in r[1]:
+        key = [x for x in r[1] if x != acc][0]
+        return (r[0], key, dom, seed, False) if not subterms(key, lambda x: x == acc) else None
+    if r[0] == "call" and r[1] in ("max", "min") and len(r[2]) == 2 and not r[3] and acc in r[2]:
+        key = [x for x in r[2] if x != acc][0]
+        return (r[1], key, dom, seed, False) if not subterms(key, lambda x: x == acc) else None
+    if r[0] == "ite" and acc in (r[2], r[3]) and r[2] != r[3]:
+        key = r[3] if r[2] == acc else r[2]
+        if subterms(key, lambda x: x == acc):
+            return None
+        for d, ops in (("max", ((">", False), (">=", False), ("<", True), ("<=", True))), ("min", (("<", False), ("<=", False), (">", True), (">=", True)))):
+            for op, swapped in ops:
+                # ``key OP acc`` selects the key  /  ``acc OP' key`` selects the accumulator
+                c_key = t_cmp(op, acc, key) if swapped else t_cmp(op, key, acc)
+                if r[2] == key and r[1] == c_key:
+                    return d, key, dom, seed, op in (">", "<")
+                inv = {">": "<=", ">=": "<", "<": ">=", "<=": ">"}[op]
+                c_acc = t_cmp(inv, acc, key) if swapped else t_cmp(inv, key, acc)
+                if r[2] == acc and r[1] == c_acc:
+                    return d, key, dom, seed, op in (">", "<")
+    return None
+
+
+def resolve_extremes(path: Path, value: Term, ev: Optional[Evaluator] = None) -> Tuple[Term, List[Summary], List[str]]:
     """Replace accumulators left by the loops of ``path`` (and min()/max() comprehensions) in ``value`` by EXT normal
     forms.  Returns (normalised value, summaries used, problems)."""
     problems: List[str] = []
     used: List[Summary] = []
+    if ev is not None:
+        for t in subterms(value, lambda x: x[0] == "call" and _callee_name(x[1]) == "reduce"):
+            re_ = reduce_extreme(ev, t)
+            if re_ is not None:
+                d, key, dom, seed, strict = re_
+                term, inv = normalise_ext(d, key, dom)
+                su = Summary("reduce(...)", d, key, seed, dom, None, strict)
+                su.norm, su.inv = t_add(term, inv), inv
+                used.append(su)
+                value = subst(value, {t: su.norm})
     loops = [e for e in path.events if e.kind == "loop"]
     mapping: Dict[Term, Term] = {}
     for lp in loops:
@@ -153,7 +204,7 @@ def duration_rule(model: Model, rep: Report):
                       what="only an empty block may short-cut to a constant duration, and that constant is 0", detail="empty")
             continue
         n_main += 1
-        v, used, problems = resolve_extremes(p, p.value)
+        v, used, problems = resolve_extremes(p, p.value, ev)
         ext = subterms(v, lambda x: x[0] == "ext")
         # D1: domains
         for e in ext:
@@ -212,6 +263,7 @@ def width_rule(model: Model, rep: Report, rule: str):
             rep.fail(rule, construct, f.loc, found="channel_width not passed", required="max(1, latest end) + 1", what="figure width not derived from the schedule", detail="missing")
             continue
         wpath = p
+        wev = ev
         wv = width
         while wv[0] == "var" and wv[3][0] not in ("list", "comp", "dict"):
             wv = wv[3]
@@ -233,8 +285,8 @@ def width_rule(model: Model, rep: Report, rule: str):
                 if set(given) == set(names):
                     gps = [q for q in PathEnumerator(ev_g).function_paths(g, args=given) if q.exit == "return"]
                     if len(gps) == 1 and gps[0].value is not None:
-                        wpath, width = gps[0], gps[0].value
-        w, used, problems = resolve_extremes(wpath, width)
+                        wpath, width, wev = gps[0], gps[0].value, ev_g
+        w, used, problems = resolve_extremes(wpath, width, wev)
         ext = subterms(w, lambda x: x[0] == "ext")
         ok = False
         found = "; ".join(problems) or show(w)
